@@ -55,10 +55,12 @@ def A(field, token, guide, header, g=None, h=None, extra=(), note=""):
                  "scale": 1, "src": _src(g, h), "gline": g, "note": note})
 
 
-def O(field, token, values, g=None, h=None, note=""):
-    """only-check row: {value: documented-valid?}; no statement about any other value."""
+def O(field, token, values, g=None, h=None, note="", classes=None):
+    """only-check row: {value: documented-valid?}; no statement about any other value.
+    classes: optional {value: value-class label} (default: the value itself)."""
     ROWS.append({"field": field, "token": token, "kind": "only", "only": dict(values), "lo": min(values),
-                 "hi": max(values), "extra": (), "scale": 1, "src": _src(g, h), "gline": g, "note": note})
+                 "hi": max(values), "extra": (), "scale": 1, "src": _src(g, h), "gline": g, "note": note,
+                 "classes": dict(classes or {})})
 
 
 # ---------------------------------------------------------------- Encoder Global Options (G:141-161)
@@ -172,6 +174,18 @@ O("tier", None, {0: True, 1: True}, h="579-585", note="header lists 0 = Main, 1 
 O("scene_change_detection", None, {0: True, 1: True}, h="481-484",
   note="header: 'Flag to enable the scene change detection algorithm. Default is 1.'")
 
+# counts that index fixed-size arrays declared in the header: the declaration bounds the domain
+_HME = {2: True, 3: False, 4: False, 100000: False, 2 ** 32 - 1: False}
+_HMEC = {3: "above-max", 4: "above-max", 100000: "above-max", 2 ** 32 - 1: "above-max"}
+O("number_hme_search_region_in_width", None, _HME, h="25,681-694", classes=_HMEC,
+  note="indexes arrays of EB_HME_SEARCH_AREA_COLUMN_MAX_COUNT (2) elements (H:25, H:689-694)")
+O("number_hme_search_region_in_height", None, _HME, h="26,681-694", classes=_HMEC,
+  note="indexes arrays of EB_HME_SEARCH_AREA_ROW_MAX_COUNT (2) elements (H:26, H:689-694)")
+O("enable_manual_pred_struct", None, {0: True, 1: True}, h="715-718", note="flag; see the cross constraint")
+O("manual_pred_struct_entry_num", None, {0: True, 1: True, 32: True, 33: True, T31 - 1: True, -1: True, -T31: True},
+  h="712-722", classes={33: "above-max", T31 - 1: "above-max", -1: "below-min", -T31: "below-min"},
+  note="number of used entries of pred_struct[32] (H:714); on its own (flag off) every value is acceptable")
+
 # guide tokens that are named differently in EbAppConfig.c config_entry[] (the --command-line form is identical)
 TOKEN_ALIASES = {"EnableTPLModel": "EnableTplLA", "MultiReferencePictures": "MrpLevel", "AltRefLevel": "TfLevel",
                  "DisableCfl": "DisableCFL", "LogicalProcessorNumber": "LogicalProcessors",
@@ -188,14 +202,12 @@ UNDOCUMENTED = {
     "use_cpu_flags": "H:593-595 (guide Asm [0-11] is a command-line encoding of bit masks)",
     "channel_id": "H:599-601", "active_channel_count": "H:602 (guide ChannelNumber is the application's instance count)",
     "injector_frame_rate": "H:612-615, guide range 'Null'", "recon_enabled": "H:652-656",
-    "number_hme_search_region_in_width": "H:681-686", "number_hme_search_region_in_height": "H:681-686",
     "hme_level0_total_search_area_width": "H:687", "hme_level0_total_search_area_height": "H:688",
     "hme_level0_search_area_in_width_array": "H:689", "hme_level0_search_area_in_height_array": "H:690",
     "hme_level1_search_area_in_width_array": "H:691", "hme_level1_search_area_in_height_array": "H:692",
     "hme_level2_search_area_in_width_array": "H:693", "hme_level2_search_area_in_height_array": "H:694",
     "ten_bit_format": "H:696", "superres_mode": "H:706-707 (not in the guide)", "superres_denom": "H:708",
-    "superres_kf_denom": "H:709", "superres_qthres": "H:710", "pred_struct": "H:712-714",
-    "enable_manual_pred_struct": "H:715-718", "manual_pred_struct_entry_num": "H:719-722",
+    "superres_kf_denom": "H:709", "superres_qthres": "H:710", "pred_struct": "H:712-714 (entry contents)",
 }
 
 # ---------------------------------------------------------------- documented cross-parameter constraints
@@ -207,7 +219,11 @@ def _c_rc_ip(c):
 
 
 def _c_minmax(c):
-    return c["min_qp_allowed"] > c["max_qp_allowed"]
+    # H:507-516: both bounds are "only applicable when rate control mode is set to 1" and must satisfy min <= max.
+    # rate control mode 0: not applicable -> no constraint; mode 2: the header makes no statement -> not judged.
+    if c["min_qp_allowed"] <= c["max_qp_allowed"] or c["rate_control_mode"] == 0:
+        return False
+    return True if c["rate_control_mode"] == 1 else None
 
 
 def _c_fps(c):
@@ -227,6 +243,17 @@ def _c_fps240(c):
     return False
 
 
+def _c_manual_ps(c):
+    # H:712-722: pred_struct[] has 1 << (MAX_HIERARCHICAL_LEVEL - 1) = 32 entries and manual_pred_struct_entry_num is
+    # "the minigop size of prediction structure user defined": with the flag on it must be 1..32.  Whether 1..32 is
+    # acceptable depends on the entries' contents, about which the documents say nothing -> not judged.
+    if not c["enable_manual_pred_struct"]:
+        return False
+    if not 1 <= c["manual_pred_struct_entry_num"] <= 32:
+        return True
+    return None
+
+
 def _c_profile_depth(c):
     # header: "1 = Main, allows bit depth of 8"; guide: 1 = high profile (10 bit allowed): contradiction for depth 10
     if c["profile"] == 1 and c["encoder_bit_depth"] == 10:
@@ -237,11 +264,14 @@ def _c_profile_depth(c):
 CONSTRAINTS = [
     ("rate_control_mode>=1,intra_period_length>255", ("rate_control_mode", "intra_period_length"),
      ["%s:223" % G], _c_rc_ip),
-    ("min_qp_allowed>max_qp_allowed", ("min_qp_allowed", "max_qp_allowed"), ["%s:507-516" % H], _c_minmax),
+    ("rate_control_mode=1,min_qp_allowed>max_qp_allowed", ("rate_control_mode", "min_qp_allowed", "max_qp_allowed"),
+     ["%s:507-516" % H], _c_minmax),
     ("frame_rate_numerator=0^frame_rate_denominator=0", ("frame_rate_numerator", "frame_rate_denominator"),
      ["%s:161-170" % H], _c_fps),
     ("frame_rate_numerator/frame_rate_denominator>240", ("frame_rate_numerator", "frame_rate_denominator"),
      ["%s:150" % G, "%s:152-170" % H], _c_fps240),
+    ("enable_manual_pred_struct=1,manual_pred_struct_entry_num-not-in-1..32",
+     ("enable_manual_pred_struct", "manual_pred_struct_entry_num"), ["%s:712-722" % H], _c_manual_ps),
     ("profile=1,encoder_bit_depth=10", ("profile", "encoder_bit_depth"), ["%s:572-578" % H, "%s:149" % G],
      _c_profile_depth),
 ]
@@ -281,6 +311,11 @@ GROUPS = [
      "src": ["%s:281-284" % G, "%s:698-704" % H], "triples": False},
     {"name": "picture-size", "fields": ["source_width", "source_height"], "src": ["%s:144-145" % G],
      "triples": False},
+    {"name": "manual-pred-struct", "fields": ["enable_manual_pred_struct", "manual_pred_struct_entry_num"],
+     "src": ["%s:712-722" % H], "triples": False},
+    {"name": "hme-regions", "fields": ["enable_hme_flag", "number_hme_search_region_in_width",
+                                       "number_hme_search_region_in_height"],
+     "src": ["%s:25-26" % H, "%s:681-694" % H], "triples": False},
     {"name": "two-pass-rc", "fields": ["rate_control_mode", "vbr_bias_pct", "under_shoot_pct", "over_shoot_pct",
                                        "recode_loop"],
      "src": ["%s:213-218" % G], "triples": False},
@@ -295,8 +330,10 @@ GROUP_CLASSES = [
     ("rate_control_mode>=1,intra_period_length=121..255",
      {"rate_control_mode", "look_ahead_distance", "intra_period_length"},
      lambda c: c["rate_control_mode"] >= 1 and 121 <= c["intra_period_length"] <= 255),
-    ("tile_rows+tile_columns>7", {"tile_rows", "tile_columns"},
+    ("tile_rows+tile_columns>7,tile_columns<=4", {"tile_rows", "tile_columns"},
      lambda c: c["tile_rows"] + c["tile_columns"] > 7 and c["tile_columns"] <= 4),
+    ("tile_rows+tile_columns>7,tile_columns>4", {"tile_rows", "tile_columns"},
+     lambda c: c["tile_rows"] + c["tile_columns"] > 7 and c["tile_columns"] > 4),
     ("rate_control_mode=2,look_ahead_distance!=intra_period_length",
      {"rate_control_mode", "look_ahead_distance", "intra_period_length"},
      lambda c: c["rate_control_mode"] == 2 and c["look_ahead_distance"] != c["intra_period_length"]),
@@ -320,6 +357,6 @@ def verify_sources(repo):
                     b = int(part.split("-")[-1])
                     if b > len(hl):
                         errs.append("%s: header line %d does not exist" % (r["field"], b))
-                    elif r["field"] not in "\n".join(hl[a - 1:b + 12]) and "29" != part:
+                    elif r["field"] not in "\n".join(hl[a - 1:b + 12]) and b - a > 0:
                         errs.append("%s: header lines %s do not mention the field" % (r["field"], part))
     return errs
